@@ -143,7 +143,7 @@ def floors(tier):
             "cls:completion": 50, "cls:expr_selected": 10, "re:.*@Comparator\\.R\\.enter": 1000,
             "re:Variable@Comparator\\.L\\.enter": 100, "cache.check.hit": 200, "dedup.call": 500,
             "cls:nvars=3": 100, "cls:nvars=4": 50, "cls:exhaustive_two_variable_tree": 2000,
-            "cls:join_through_positional_term_arguments": 200}
+            "cls:join_through_positional_term_arguments": 200, "cls:preceded_by_an_abandoned_evaluation": 2000}
 
 
 def cases(spec, ctx):
@@ -178,12 +178,15 @@ def cases(spec, ctx):
         case["form"] = rng.choice(["set_of", "set_of", "direct_list"])
         case["how"] = rng.choice(["let", "let", "mix"])
         case["times"] = rng.choice([1, 2, 2, 3])
+        case["take_first"] = rng.choice([0, 0, 0, 1, 2, 3])
+        case["keep_first"] = rng.random() < 0.4
         yield case
 
 
 def _run(case, world, caching, times=1):
     r = multi.evaluate(case, world, caching=caching, form=case.get("form", "set_of"), how=case.get("how", "let"), times=times,
-                       split_top_and=bool(case.get("split")))
+                       split_top_and=bool(case.get("split")), take_first=case.get("take_first", 0),
+                       keep_first=bool(case.get("keep_first")))
     return r if times > 1 else r[0]
 
 
@@ -196,6 +199,8 @@ def check_case(case, ctx):
     ctx.cls(f"cls:nvars={nv}")
     if case.get("exh"):
         ctx.cls("cls:exhaustive_two_variable_tree")
+    if case.get("take_first"):
+        ctx.cls("cls:preceded_by_an_abandoned_evaluation")
     ctx.cls("cls:all_selected" if multi.all_selected(case) else "cls:subset_selected")
     ctx.cls("cls:caching_on" if case["caching"] else "cls:caching_off")
     if "E" in case["kinds"]:
